@@ -601,7 +601,7 @@ class Interface:
                 station_ids (List[str]): Names of each station.
 
         """
-        infrastructure_info: InfrastructureInfo = self._infrastructure_info()
+        infrastructure_info: InfrastructureInfo = self.infrastructure_info()
         return Constraint(
             infrastructure_info.constraint_matrix,
             infrastructure_info.constraint_limits,
